@@ -356,6 +356,8 @@ def run(ctx):
     ctx.do(r13_6)
     from . import c10
     ctx.do(c10.r10_7)
+    from . import c04 as _c04
+    ctx.do(_c04.r4_3)  # Seen / unseen stay complements through every flag helper
     ctx.note("periodic poll liveness (clean-up before the emptiness test of executing_tasks) is decided by C10 R10.7")
     for k, v in WRITEBACK_EXEMPT.items():
         ctx.trust(f"frozen write-back exemption: {k} - {v}")
